@@ -45,6 +45,9 @@ def coverage(prop, executed, rejected, tier):
         "graph_kinds": {k[5:]: int(v) for k, v in sorted(total.items()) if k.startswith("kind:")},
         "graphs_per_history": {k[18:]: int(v) for k, v in sorted(total.items()) if k.startswith("graphs_in_history:")},
         "op_histogram": {k[3:]: int(v) for k, v in sorted(total.items()) if k.startswith("op:")},
+        "graph_object_forms": {k[11:]: int(v) for k, v in sorted(total.items()) if k.startswith("graph-form:")},
+        "histories_with_debug_logging": int(total.get("env:debug-logging", 0)),
+        "graphs_with_3d_positions": int(total.get("graphs_with_3d_positions", 0)),
         "faults_armed_fired": {k: int(v) for k, v in sorted(total.items()) if k.startswith("fault:")},
         "simulated_time": "not applicable (the layout reads no clock)",
         "components": {"real": ["cgsmiles.graph_layout", "cgsmiles.graph_layout_utils", "cgsmiles.linalg_functions", "networkx", "numpy", "scipy"],
